@@ -178,6 +178,33 @@ def check_ext(ctx, e, stratum="extension"):
         dz2 = json.loads(_ext.Extension.from_json(z.to_json()).to_json())
         if sort_reqs(dz2) != sort_reqs(dz):
             bad("takeover-roundtrip-document", "to_json(from_json(to_json(z)))", "same document", "differs")
+        # ---- ... and for definitions that REPLACE one of the same name (an operation defined again): fresh OpDef
+        # objects with other signatures added under the names z already holds
+        from hugr import tys as _tys
+
+        ctx.count("monitor:owner-invariant-after-redefinition")
+        for k_, name in enumerate(sorted(z.operations)):
+            new_sig = [_ext.OpDefSig(_tys.FunctionType([_tys.Bool] * (k_ % 3), [_tys.Unit]), binary=False),
+                       _ext.OpDefSig(_tys.PolyFuncType([_tys.TypeTypeParam(_tys.TypeBound.Any)],
+                                                       _tys.FunctionType([_tys.Variable(0, _tys.TypeBound.Any)], [])), False),
+                       _ext.OpDefSig(None, binary=True)][k_ % 3]
+            ret = z.add_op_def(_ext.OpDef(name, new_sig, "defined again", {"again": k_}))
+            od = z.operations.get(name)
+            if ret is not od or od.description != "defined again":
+                bad("redefinition-not-held", name, "the new definition", repr(od))
+                continue
+            if od.get_extension() is not z:
+                bad("opdef-owner-after-redefinition", name, z.name, repr(od.get_extension()))
+            pf = od.signature.poly_func
+            if pf is not None and z.name not in pf.body.runtime_reqs:
+                bad("opdef-requires-owner-after-redefinition", name, f"{z.name} in runtime_reqs", list(pf.body.runtime_reqs))
+        dr = json.loads(z.to_json())
+        dr2 = json.loads(_ext.Extension.from_json(z.to_json()).to_json())
+        if sort_reqs(dr2) != sort_reqs(dr):
+            from vf.oracles.observe import diff
+
+            pth = diff(sort_reqs(dr), sort_reqs(dr2))[0]
+            bad("redefinition-roundtrip-document", pth[0], pth[1], pth[2])
 
 
 def std_files():
